@@ -6,6 +6,7 @@ import (
 	"encoding/base64"
 	"fmt"
 	"net/http"
+	"os"
 	"sort"
 	"strings"
 	"testing"
@@ -47,6 +48,10 @@ type c38Case struct {
 	PipeCalls  []lib.CallSpec `json:"pipe_calls,omitempty"`
 	HTTPCalls  []hCall        `json:"http_calls,omitempty"`
 	BatchLimit int            `json:"batch_limit,omitempty"`
+	// ColdConts serves every continuation from a second HttpServer instance
+	// (same server, hook and token key) whose call-state cache never saw the
+	// /init: the documented load-balanced deployment.
+	ColdConts bool `json:"cold_conts,omitempty"`
 }
 
 // ---- reference: which claim names are sensitive (from the RedactClaims doc
@@ -187,7 +192,11 @@ func genC38(t *rapid.T) c38Case {
 		c.Trace.TraceID += "0"
 	}
 	if c.Transport == "pipe" {
-		n := rapid.IntRange(1, 8).Draw(t, "ncalls")
+		maxCalls := 8
+		if os.Getenv("VERIF_TIER") == "thorough" {
+			maxCalls = 14
+		}
+		n := rapid.IntRange(1, maxCalls).Draw(t, "ncalls")
 		for i := 0; i < n; i++ {
 			call := lib.GenCall(t, lib.CallID(i))
 			call.Opts.RequestID = fmt.Sprintf("rid-%d", i)
@@ -198,7 +207,12 @@ func genC38(t *rapid.T) c38Case {
 	c.Redactor = []string{"default", "default", "default", "none", "custom", "custom_empty", "panic"}[rapid.IntRange(0, 6).Draw(t, "redactor")]
 	c.Claims = genClaims(t)
 	c.BatchLimit = rapid.IntRange(1, 3).Draw(t, "limit")
-	n := rapid.IntRange(1, 5).Draw(t, "ncalls")
+	c.ColdConts = rapid.IntRange(0, 2).Draw(t, "cold") == 0
+	maxCalls := 5
+	if os.Getenv("VERIF_TIER") == "thorough" {
+		maxCalls = 9
+	}
+	n := rapid.IntRange(1, maxCalls).Draw(t, "ncalls")
 	for i := 0; i < n; i++ {
 		c.HTTPCalls = append(c.HTTPCalls, genHCall(t, i))
 	}
@@ -597,15 +611,28 @@ func runC38(c c38Case) (out lib.Outcome) {
 	}
 
 	// ---- HTTP ----
-	hs := newObsHTTP(srv, c.BatchLimit)
+	hs, hs2 := newObsHTTP(srv, c.BatchLimit), newObsHTTP(srv, c.BatchLimit)
 	claims := c.claimsMap()
-	hs.SetAuthenticate(func(*http.Request) (*vgirpc.AuthContext, error) {
+	authn := func(*http.Request) (*vgirpc.AuthContext, error) {
 		cp := map[string]any{}
 		for k, v := range claims {
 			cp[k] = v
 		}
 		return &vgirpc.AuthContext{Domain: "harness", Authenticated: true, Principal: "alice", Claims: cp}, nil
-	})
+	}
+	hs.SetAuthenticate(authn)
+	hs2.SetAuthenticate(authn)
+	var front http.Handler = hs
+	if c.ColdConts {
+		out.Label("cold-continuations")
+		front = http.HandlerFunc(func(w http.ResponseWriter, r *http.Request) {
+			if strings.HasSuffix(r.URL.Path, "/exchange") {
+				hs2.ServeHTTP(w, r)
+				return
+			}
+			hs.ServeHTTP(w, r)
+		})
+	}
 	for _, cl := range c.Claims {
 		out.Label("claims:" + cl.Class)
 		if _, nested := cl.Value.(map[string]any); nested {
@@ -617,7 +644,7 @@ func runC38(c c38Case) (out lib.Outcome) {
 		out.Label("call:" + call.Kind)
 		streamID := ""
 		conts := 0
-		driveHCall(hs, call, nil, func(st hStep) {
+		driveHCall(front, call, nil, func(st hStep) {
 			// records are flushed before ServeHTTP returns and requests are
 			// sequential, so the sink's growth is this request's record
 			recs := parse(sink.From(off))
@@ -651,7 +678,7 @@ func runC38(c c38Case) (out lib.Outcome) {
 					st.Path, len(st.Resp.Body), st.Resp.Coding, len(st.Resp.Decoded), r["response_bytes"])
 			}
 			if st.Resp.Coding != "" {
-				out.Label("compressed")
+				out.Label("compressed", "coding:"+st.Resp.Coding)
 				if len(st.Resp.Decoded) >= 1024 {
 					out.Label("compressed-1k")
 					out.NonTrivial = true
@@ -679,6 +706,9 @@ func runC38(c c38Case) (out lib.Outcome) {
 					if conts == 2 {
 						out.Label("stream-2cont")
 						out.NonTrivial = true
+						if c.ColdConts {
+							out.Label("stream-2cont-cold")
+						}
 					}
 					if _, isCancel := r["cancelled"]; isCancel {
 						out.Label("cancelled")
@@ -694,7 +724,7 @@ func runC38(c c38Case) (out lib.Outcome) {
 var propC38 = lib.Prop[c38Case]{
 	ID: "C38",
 	Rule: "histories on a scripted service with an AccessLogHook installed: pipe sessions of 1-8 calls (every call kind of the C02 generator, unique request ids) or HTTP histories of 1-5 calls " +
-		"(unary incl. bad parameter batches; producer streams with a batch limit of 1-3 followed to the end; exchange streams of 1-3 turns, optionally cancelled; response compression asked for on 2/3 of the calls, " +
+		"(unary incl. bad parameter batches; producer streams with a batch limit of 1-3 followed to the end; exchange streams of 1-3 turns, optionally cancelled; response compression (zstd or gzip, via X-VGI-Accept-Encoding or Accept-Encoding) asked for on 5/7 of the calls, in a third of the cases every continuation is served by a second HttpServer instance with a cold call-state cache, " +
 		"zstd request bodies on 1/4), debug on/off, server_version set/unset, a trace-context provider (none, valid, dashed, upper-case, one half, short, long, panicking), an authenticated caller with 0-6 claims " +
 		"(sensitive, benign and undecided names; scalar, list and nested values) and a redactor (default, NoClaimRedaction, custom, custom returning nothing, panicking). " +
 		"Oracle per output line: one JSON object, the 16 pinned required fields with their types plus typed optional fields, 32-hex stream_id on stream records and equal across init and continuations (HTTP), " +
@@ -704,7 +734,7 @@ var propC38 = lib.Prop[c38Case]{
 	Gen: genC38,
 	Run: runC38,
 	Essential: []string{"transport:pipe", "transport:http", "debug:true", "debug:false", "stream-2cont", "compressed-1k", "trace:valid", "trace:panic", "trace:dashed",
-		"redactor:panic", "redactor:none", "redactor:custom", "claims:sensitive", "claims:benign", "claims:nested", "request-compressed", "call:exchange", "call:producer"},
+		"redactor:panic", "redactor:none", "redactor:custom", "stream-2cont-cold", "coding:zstd", "coding:gzip", "claims:sensitive", "claims:benign", "claims:nested", "request-compressed", "call:exchange", "call:producer"},
 	EssentialMin: 200,
 	Assumptions: []string{
 		"the access-log field contract is pinned from /repo/CLAUDE.md, the accesslog*.go doc comments and the record assembled in OnDispatchEnd; the Python JSON schema is not in the sandbox",
